@@ -91,6 +91,9 @@ Definition parse_event (v : val) : option event :=
   | VL [VN 9; info] => Some (ESysTick info)
   | VL [VN 10; VB topic] => Some (ERetainedExpired topic)
   | VL [VN 11; VB cid] => Some (EClientExpired cid)
+  | VL [VN 12; VB cid; VN ptype; VN pid; VN reason] => Some (EAckSent cid ptype pid reason)
+  | VL [VN 13; VB cid] => Some (EProcessed cid)
+  | VL [VN 14; VB cid] => Some (ESuperseded cid)
   | _ => None
   end.
 
